@@ -568,6 +568,8 @@ type replayCase struct {
 	Stack   *stackCase  `json:"stack,omitempty"` // stack family
 	// Constructed: constructed family
 	Constructed *constructedCase `json:"constructed,omitempty"`
+	// Trailer: unchunked-trailers family
+	Trailer *trailerCase `json:"trailer,omitempty"`
 }
 
 func martianTestContext(req *http.Request) (*martian.Context, func(), error) {
@@ -604,7 +606,7 @@ func main() {
 	specs = append(specs, msggen.EdgeSpace(tier)...)
 	nEdge := len(specs) - nBody - nHeader
 
-	parts := map[string]bool{"main": true, "fault": true, "history": true, "stack": true, "constructed": true, "lifecycle": true}
+	parts := map[string]bool{"main": true, "fault": true, "history": true, "stack": true, "constructed": true, "lifecycle": true, "trailers": true}
 	if p := os.Getenv("VERIF_C15_PARTS"); p != "" { // development aid: run only some families
 		parts = map[string]bool{}
 		for _, x := range strings.Split(p, ",") {
@@ -665,7 +667,7 @@ func main() {
 	}
 	pending := make([][]pendingViolation, len(specs))
 
-	if only != nil && (only.Part == "fault" || only.Part == "history" || only.Part == "stack" || only.Part == "constructed") || !parts["main"] {
+	if only != nil && (only.Part == "fault" || only.Part == "history" || only.Part == "stack" || only.Part == "constructed" || only.Part == "trailers") || !parts["main"] {
 		specs = nil
 	}
 	lib.Parallel(len(specs), func(i int) {
@@ -964,6 +966,23 @@ func main() {
 		}
 	}
 
+	var trailerStates int64
+	if parts["trailers"] && (only == nil || only.Part == "trailers") {
+		for k, v := range runTrailerFamily(rep, tier, workerCh, only) {
+			rep.Coverage[k] = v
+			switch k {
+			case "unchunked_trailers_cases", "unchunked_trailers_snapshots":
+				runs += v
+			case "unchunked_trailers_transitions":
+				transitions += v
+			case "unchunked_trailers_messages_with_trailers":
+				nontrivial += v
+			case "unchunked_trailers_states":
+				trailerStates = v
+			}
+		}
+	}
+
 	var lifecycleStates int64
 	if lifecycle != nil {
 		for k, v := range lifecycle.collect(rep) {
@@ -985,7 +1004,7 @@ func main() {
 	for _, n := range perFamily {
 		states += n
 	}
-	states += lifecycleStates
+	states += lifecycleStates + trailerStates
 	rep.Coverage["states"] = states
 	rep.Coverage["transitions"] = transitions
 	rep.Coverage["traces_validated_against_impl"] = runs + skipRuns + snapshots
@@ -1007,9 +1026,9 @@ func main() {
 	rep.Coverage["violating_cases"] = violCount
 	rep.Coverage["states_per_family"] = perFamily
 	rep.Coverage["exhaustive"] = only == nil
-	rep.Coverage["rule"] = "cases = every message of msggen.BodySpace ∪ HeaderSpace ∪ EdgeSpace x every logger variant x every read mode (+ one skip-logging run per skipping variant, + one snapshot re-parse per messageview variant); states = distinct (message, logger variant) pairs; a message is non-trivial when its body is non-empty and it is chunked, close-delimited or content-coded (the paths where a logger can re-frame or mis-decode); failing-body family: every message of a sub-space (non-empty bodies x framings x {identity, gzip} x 3 content types) x fault kind {sender closes, connection error} x cut offsets (every offset of a body region of at most 96 bytes, else ±1 around each structural boundary) x 3 read modes x every logger variant; oracle: pass-through variants identical to the unlogged twin, buffering variants still fail and write only a prefix of the body; history family: every ordered pair (thorough: and triple) of messages over a pool of 11 x 7 logger set-ups (one logger object for all messages, one reused MessageView, mixed families) x forwarding order {fifo, lifo} x 2 read modes, all messages logged before the first is forwarded, a response that follows a request belongs to that request's exchange; oracle identity with the unlogged twins, and the reused view's last snapshot re-parses to the message it was loaded with last; stack family: every ordered pair of the 13 logger variants (thorough: and every triple over 6 representatives) attached to the same message of a sub-space x 2 read modes; oracle identity with the unlogged twin, no logger error, every logger recorded the exchange; constructed family: 10 requests {GET,HEAD,DELETE,POST,PUT} and 10 responses {200 CL 0, 200 CL -1, 204, 304, 404} that were never on a wire, Body nil or http.NoBody, x every logger variant x {Write, http.Transport round trip against an in-memory origin (requests)} in a worker subprocess; oracle: Body after the logger == Body before, no logger error, forwarded bytes / origin's view / answer equal the unlogged twin's, a crash or hang of the worker is attributed to the running case; sub-space big: bodies of 65537 / 131072 / 1 MiB bytes in one piece x 28 stacks {marbl alone, in-memory body -> marbl, snapshotting logger -> marbl [-> snapshotting logger]} x {Write, direct reads with 65537-byte and 1 MiB buffers}; lifecycle family (second binary checks/c15sched under the controlled scheduler): the real marbl.Stream with a sink writer {fast, held at every Write until the driver lets it go} x {accepts, fails every Write, fails from the 2nd (thorough)}, one forwarder thread (request or response; two on one stream for an exchange) whose program is log call, one Body.Read per scripted read, Body.Close, and a closer thread calling Stream.Close; at every quiescent state the driver fires one enabled action of {next forwarder step, let the held Write go, Close} (or any subset at once), every such history is enumerated to the end and under each every schedule with at most 1 (thorough 2) deviations; oracle: the forwarder finishes, the log call returns nil, every Read returns exactly what the body's script returns without a logger; a history is non-trivial when a closer takes part and the writer is held or failing or the body has data"
-	rep.Coverage["bounds"] = fmt.Sprintf("tier %s: body space = {request POST, response 200} x sizes %v x {Content-Length, close (responses), chunked x chunk lists %v x trailers 0..2 (coinciding chunk lists emitted once)} x content codings %v x content types requests %v / responses %v; header space = requests {GET,POST,PUT} x HTTP/1.1,1.0 x query pool x cookie pool x repeated/empty header pool x {CL 0, CL 5, chunked 0, chunked 5}, responses {200,201,301,302,404,204,304} x versions x Set-Cookie pool x header pool x Location pool x {CL, chunked, close} x sizes {0,5}, 204/304 with and without Content-Encoding: gzip; edge space = request methods {GET,DELETE,PATCH,OPTIONS,PUT} with a body, content types {absent, unparseable, form with parameters / upper case / non-UTF-8 parameter name / unparseable, multipart with quoted / without boundary / empty and typed parts} x framings x {identity, gzip, zlib deflate, unknown coding}, non-UTF-8 bytes in a query value and a header value, 206 x codings x framings, 304 and answers to HEAD {200,404,301} with Content-Length / chunked framing headers and no body, Location on {200,201,404}, query strings with '=' inside values and names / empty names / flags, requests whose parsed form has Transfer-Encoding chunked AND a content length, or a body of unknown length (neither); read-buffer sizes {1 (61 for bodies > 4200 bytes, 1021 for bodies > 70000 bytes), 511, 4097, 65536, bytes.Buffer growth, bufio 4096}; lifecycle family = {request, response, exchange (both on one stream)} x scripted bodies {no data, [3], [3]+EOF with the data, [3 2]} (thorough + [3 2]+EOF with data, [1 2 3], [3] and [3 2] ending in a connection error) x sink {fast, held} x {accepting, failing} (thorough + failing from the 2nd Write) x {closer, none} x driver {one action, any subset of the enabled actions} per quiescent state, deviation bound 1 (thorough 2; 1 for subsets with bodies of 2+ reads and for exchanges, whose Writes are held from the return of both log calls on)",
-		tier, sizesFor(tier), chunkingsFor(tier), msggen.Encodings, msggen.RequestCTs, msggen.ResponseCTs)
+	rep.Coverage["rule"] = "cases = every message of msggen.BodySpace ∪ HeaderSpace ∪ EdgeSpace x every logger variant x every read mode (+ one skip-logging run per skipping variant, + one snapshot re-parse per messageview variant); states = distinct (message, logger variant) pairs; a message is non-trivial when its body is non-empty and it is chunked, close-delimited or content-coded (the paths where a logger can re-frame or mis-decode); failing-body family: every message of a sub-space (non-empty bodies x framings x {identity, gzip} x 3 content types) x fault kind {sender closes, connection error} x cut offsets (every offset of a body region of at most 96 bytes, else ±1 around each structural boundary) x 3 read modes x every logger variant; oracle: pass-through variants identical to the unlogged twin, buffering variants still fail and write only a prefix of the body; history family: every ordered pair (thorough: and triple) of messages over a pool of 11 x 7 logger set-ups (one logger object for all messages, one reused MessageView, mixed families) x forwarding order {fifo, lifo} x 2 read modes, all messages logged before the first is forwarded, a response that follows a request belongs to that request's exchange; oracle identity with the unlogged twins, and the reused view's last snapshot re-parses to the message it was loaded with last; stack family: every ordered pair of the 13 logger variants (thorough: and every triple over 6 representatives) attached to the same message of a sub-space x 2 read modes; oracle identity with the unlogged twin, no logger error, every logger recorded the exchange; constructed family: 10 requests {GET,HEAD,DELETE,POST,PUT} and 10 responses {200 CL 0, 200 CL -1, 204, 304, 404} that were never on a wire, Body nil or http.NoBody, x every logger variant x {Write, http.Transport round trip against an in-memory origin (requests)} in a worker subprocess; oracle: Body after the logger == Body before, no logger error, forwarded bytes / origin's view / answer equal the unlogged twin's, a crash or hang of the worker is attributed to the running case; sub-space big: bodies of 65537 / 131072 / 1 MiB bytes in one piece x 28 stacks {marbl alone, in-memory body -> marbl, snapshotting logger -> marbl [-> snapshotting logger]} x {Write, direct reads with 65537-byte and 1 MiB buffers}; lifecycle family (second binary checks/c15sched under the controlled scheduler): the real marbl.Stream with a sink writer {fast, held at every Write until the driver lets it go} x {accepts, fails every Write, fails from the 2nd (thorough)}, one forwarder thread (request or response; two on one stream for an exchange) whose program is log call, one Body.Read per scripted read, Body.Close, and a closer thread calling Stream.Close; at every quiescent state the driver fires one enabled action of {next forwarder step, let the held Write go, Close} (or any subset at once), every such history is enumerated to the end and under each every schedule with at most 1 (thorough 2) deviations; oracle: the forwarder finishes, the log call returns nil, every Read returns exactly what the body's script returns without a logger; a history is non-trivial when a closer takes part and the writer is held or failing or the body has data; unchunked-trailers family: every message with a Trailer map under a framing other than chunked - requests {unknown length, Content-Length} and responses {unknown length, Content-Length, close-delimited HTTP/1.1 and 1.0 parsed from the wire, HTTP/2-shaped (emulated, and fetched from a real HTTP/2 origin over loopback TLS) without and with a declared length} x trailers {0 (control), 1, 2} x {names known when the message is logged, unannounced} x {values present when logged, filled in when the body reports EOF} x body sizes x codings x content types x every logger variant x {Write, Write after a downstream re-framing to chunked, 3 direct read loops followed by a look at Trailer}; oracle identity with the unlogged twin (whose body and trailers are checked against the generator), no logger error, and the messageview snapshot compared section by section (head fields, body section = body bytes, trailer section = the trailers, Reader() = the three in order); such a message is non-trivial when it has trailers"
+	rep.Coverage["bounds"] = fmt.Sprintf("tier %s: body space = {request POST, response 200} x sizes %v x {Content-Length, close (responses), chunked x chunk lists %v x trailers 0..2 (coinciding chunk lists emitted once)} x content codings %v x content types requests %v / responses %v; header space = requests {GET,POST,PUT} x HTTP/1.1,1.0 x query pool x cookie pool x repeated/empty header pool x {CL 0, CL 5, chunked 0, chunked 5}, responses {200,201,301,302,404,204,304} x versions x Set-Cookie pool x header pool x Location pool x {CL, chunked, close} x sizes {0,5}, 204/304 with and without Content-Encoding: gzip; edge space = request methods {GET,DELETE,PATCH,OPTIONS,PUT} with a body, content types {absent, unparseable, form with parameters / upper case / non-UTF-8 parameter name / unparseable, multipart with quoted / without boundary / empty and typed parts} x framings x {identity, gzip, zlib deflate, unknown coding}, non-UTF-8 bytes in a query value and a header value, 206 x codings x framings, 304 and answers to HEAD {200,404,301} with Content-Length / chunked framing headers and no body, Location on {200,201,404}, query strings with '=' inside values and names / empty names / flags, requests whose parsed form has Transfer-Encoding chunked AND a content length, or a body of unknown length (neither); read-buffer sizes {1 (61 for bodies > 4200 bytes, 1021 for bodies > 70000 bytes), 511, 4097, 65536, bytes.Buffer growth, bufio 4096}; lifecycle family = {request, response, exchange (both on one stream)} x scripted bodies {no data, [3], [3]+EOF with the data, [3 2]} (thorough + [3 2]+EOF with data, [1 2 3], [3] and [3 2] ending in a connection error) x sink {fast, held} x {accepting, failing} (thorough + failing from the 2nd Write) x {closer, none} x driver {one action, any subset of the enabled actions} per quiescent state, deviation bound 1 (thorough 2; 1 for subsets with bodies of 2+ reads and for exchanges, whose Writes are held from the return of both log calls on); unchunked-trailers family = 8 shapes + 2 real-HTTP/2 shapes x sizes %v x codings %v x content types %v (real HTTP/2: sizes %v x {identity, gzip} x text)",
+		tier, sizesFor(tier), chunkingsFor(tier), msggen.Encodings, msggen.RequestCTs, msggen.ResponseCTs, trailerSizes(tier), trailerEncs(tier), trailerCTs(tier), trailerRealSizes(tier))
 	rep.Assumptions = []string{
 		"lifecycle family: scheduling points are martian's channel, select, atomic and lock operations; bodies are scripted readers of 0-3 reads (the unlogged twin of a scripted body is its script); a stream is closed at most once (a second Close panics by construction of the API); 'nothing can happen any more' is the scheduler's quiescence (every thread parked, no Write held), not a timeout",
 		"Request.Write / Response.Write of the parsed message stand for what the proxy forwards (the proxy calls Response.Write itself and hands requests to http.Transport, which serialises them with the same transfer writer)",
@@ -1019,6 +1038,7 @@ func main() {
 		"for snapshot variants configured to skip the body only the head of the snapshot is required to parse and match",
 		"trailers are always announced by a Trailer header (net/http drops unannounced trailers of an unlogged message)",
 		"a message that has no body because of its status (304) or because it answers a HEAD request is compared on everything net/http writes after the head (nothing, or for a chunked 304 the last-chunk line net/http itself emits)",
+		"unchunked-trailers family: a message of unknown length with trailers has no self-delimiting HTTP/1 serialisation other than chunked, so its snapshot is judged section by section (HeaderReader, BodyReader, TrailerReader) and not through http.ReadResponse; when the names of the trailers turn up only at the end of the body (unannounced HTTP/2 trailers) the unlogged twin's chunked serialisation loses them (net/http fixes the trailer names when it writes the head) and is not used as a reference - the direct reads and the unchunked serialisations are; the emulated HTTP/2 shape follows what the real transport was observed to hand out (Proto HTTP/2.0, ContentLength -1 or declared, no Trailer header field, announced names as keys with nil values, values and unannounced names at EOF)",
 		"history family: 'in flight at once' is modelled as logging every message of the history before forwarding the first; the loggers run on one goroutine (what survives between two calls is the subject, not data races)",
 	}
 	rep.Finish()
